@@ -104,7 +104,14 @@ fn adv_reg(e: &mut Ent) -> u32 {
 /// the load base, odd addresses
 fn adv_pc(e: &mut Ent, len: u32) -> u32 {
     let (lo, hi, _) = e.pick(&crate::refmodel::exec::REGIONS);
-    match e.below(10) {
+    match e.below(11) {
+        // outside mapped memory: just past a region, in a gap, above 2^24 (fetch must fail with an error)
+        10 => match e.below(4) {
+            0 => hi + 1,
+            1 => lo.wrapping_sub(2),
+            2 => e.u32() & 0x00ff_fffe,
+            _ => (e.u32() & !1) | 0x0100_0000,
+        },
         0 => lo,
         1 => (hi + 1).wrapping_sub(2),
         2 => (hi + 1).wrapping_sub(4),
@@ -219,8 +226,16 @@ fn exec_case(emu: &mut Emu, c: &FCase) -> (Option<String>, &'static str) {
     let r = emu.step();
     let mut panic = None;
     let mut kind = r.kind();
+    let fetch_ok = {
+        let a = (c.pc & !1) as u64;
+        let acc = |x: u64| crate::refmodel::exec::REGIONS.iter().any(|&(lo, hi, _)| x >= lo as u64 && x <= hi as u64);
+        acc(a) && acc(a + 1)
+    };
     if let EmuResult::Panic(p) = r {
         panic = Some(p);
+    } else if !fetch_ok && kind != "Err" {
+        // the statement: an instruction fetch outside mapped memory is reported as an error
+        panic = Some(format!("instruction fetch outside mapped memory was not reported as an error: outcome {} @ harness/fetch", kind));
     } else {
         // the peripherals see the charge
         let cpu = &mut emu.cpu;
@@ -512,6 +527,9 @@ fn run_profile(ctx: &Ctx) -> Stats {
                 }
                 if c.pc < 0x416900 && c.pc >= 0x400000 {
                     st.class(&format!("{}: code in DRAM below the load base", prof));
+                }
+                if !crate::refmodel::exec::REGIONS.iter().any(|&(lo, hi, _)| (c.pc & !1) >= lo && (c.pc & !1) <= hi) {
+                    st.class(&format!("{}: PC outside mapped memory", prof));
                 }
                 let adv = c.er.iter().any(|r| ADVERSARIAL.contains(r));
                 if kind == "Err" || edge || adv {
